@@ -88,7 +88,7 @@ def first_kinds(nodes):
 
 class Spec:
     def __init__(self, sym: SymStr, *, path: bool, dot: bool, ci: bool = False, nodotdir: bool = False,
-                 relaxed: bool = False):
+                 relaxed: bool = False, empty_segments: bool = False, static_guard: bool = False):
         """relaxed=True builds MAY for non-exact patterns (negations become unconstrained runs)."""
         self.s = sym
         self.path = path
@@ -96,6 +96,8 @@ class Spec:
         self.ci = ci
         self.nodotdir = nodotdir
         self.relaxed = relaxed
+        self.static_guard = static_guard          # footprint of a listed finding: start guards only on the statically first node
+        self.empty_segments = empty_segments      # footprint of a listed finding: a segment pattern may match an empty segment
         self.memo = {}
 
     # --- character predicates ---------------------------------------------------------------------------
@@ -124,10 +126,10 @@ class Spec:
     def noslash(self, i):
         return self.s.c[i] != self.s.cv(SLASH) if self.path else TRUE
 
-    def wild_ok(self, i, i0, w):
+    def wild_ok(self, i, i0, w, st=True):
         """Constraint for a wildcard construct consuming the character at position i."""
         f = self.noslash(i)
-        if i == i0:
+        if i == i0 and (st or not self.static_guard):
             if w:
                 return FALSE
             if not self.dot:
@@ -135,84 +137,86 @@ class Spec:
         return f
 
     # --- node maps --------------------------------------------------------------------------------------
-    def m(self, node, i, i0, w):
-        key = (node, i, i0, w)
+    def m(self, node, i, i0, w, st=True):
+        if not self.static_guard:
+            st = True
+        key = (node, i, i0, w, st)
         r = self.memo.get(key)
         if r is None:
-            r = self._m(node, i, i0, w)
+            r = self._m(node, i, i0, w, st)
             self.memo[key] = r
         return r
 
-    def _m(self, n, i, i0, w):
+    def _m(self, n, i, i0, w, st):
         s = self.s
         k = n[0]
         if k == 'lit':
             if i >= s.N:
                 return {}
             v = ord(n[1])
-            if i == i0 and w and v != DOT:
+            if i == i0 and w and v != DOT and st:
                 return {}
             return {i + 1: AND(s.len_gt(i), self.ch_eq(i, v))}
         if k == 'q':
             if i >= s.N:
                 return {}
-            g = self.wild_ok(i, i0, w)
+            g = self.wild_ok(i, i0, w, st)
             return {} if g is FALSE else {i + 1: AND(s.len_gt(i), g)}
         if k == 'cls':
             if i >= s.N:
                 return {}
-            g = self.wild_ok(i, i0, w)
+            g = self.wild_ok(i, i0, w, st)
             return {} if g is FALSE else {i + 1: AND(s.len_gt(i), AND(g, self.ch_in(i, n[3], n[2])))}
         if k == 'star':
-            return self.run(i, i0, w)
+            return self.run(i, i0, w, st)
         if k == 'grp':
             kind = n[1]
             if kind == '@':
-                return self.alts(n[2], i, i0, w)
+                return self.alts(n[2], i, i0, w, st)
             if kind == '?':
-                r = dict(self.alts(n[2], i, i0, w))
+                r = dict(self.alts(n[2], i, i0, w, st))
                 merge(r, i, TRUE)
                 return r
-            return self.repeat(n[2], i, i0, w, 0 if kind == '*' else 1)
+            return self.repeat(n[2], i, i0, w, 0 if kind == '*' else 1, st)
         if k == 'neg':
             if self.relaxed:
-                return self.run(i, i0, w)
+                return self.run(i, i0, w, st)
             raise ValueError('neg outside the exact fragment must be handled by seq()/relaxed')
         raise ValueError(n)
 
-    def run(self, i, i0, w):
+    def run(self, i, i0, w, st=True):
         """Any run of permitted characters starting at i (the `*` language)."""
         s = self.s
         out = {i: TRUE}
         acc = TRUE
         for j in range(i, s.N):
-            g = self.wild_ok(j, i0, w)
+            g = self.wild_ok(j, i0, w, st)
             if g is FALSE:
                 break
             acc = AND(acc, AND(s.len_gt(j), g))
             out[j + 1] = acc
         return out
 
-    def alts(self, alts, i, i0, w):
+    def alts(self, alts, i, i0, w, st=True):
         out = {}
         for a in alts:
-            for j, c in self.seq(a, i, i0, w).items():
+            for j, c in self.seq(a, i, i0, w, st=st).items():
                 merge(out, j, c)
         return out
 
-    def repeat(self, alts, i, i0, w, lo):
+    def repeat(self, alts, i, i0, w, lo, st=True):
         s = self.s
         res = {}
         cur = {i: TRUE}
         if lo == 0:
             merge(res, i, TRUE)
-        first = self.alts(alts, i, i0, w)
+        first = self.alts(alts, i, i0, w, st)
         if lo == 1 and i in first:
             merge(res, i, first[i])           # one empty occurrence
         for _t in range(s.N + 1):
             nxt = {}
             for j, cj in cur.items():
-                for k2, ck in self.alts(alts, j, i0, w).items():
+                for k2, ck in self.alts(alts, j, i0, w, st).items():
                     if k2 == j:
                         continue
                     merge(nxt, k2, AND(cj, ck))
@@ -223,23 +227,24 @@ class Spec:
             cur = nxt
         return res
 
-    def seq(self, nodes, i, i0, w, seg_end=None):
+    def seq(self, nodes, i, i0, w, seg_end=None, st=True):
         """Map for a node sequence.  `seg_end(j)` (formula: the segment/name ends at j) is needed for exact negation."""
         cur = {i: TRUE}
         for idx, n in enumerate(nodes):
+            stn = st and idx == 0
             if n[0] == 'neg' and not self.relaxed:
                 tail = nodes[idx + 1:]
-                return self._neg_tail(cur, n, tail, i0, w, seg_end)
+                return self._neg_tail(cur, n, tail, i0, w, seg_end, stn)
             nxt = {}
             for j, cj in cur.items():
-                for k2, ck in self.m(n, j, i0, w).items():
+                for k2, ck in self.m(n, j, i0, w, stn).items():
                     merge(nxt, k2, AND(cj, ck))
             cur = nxt
             if not cur:
                 break
         return cur
 
-    def _neg_tail(self, cur, neg, tail, i0, w, seg_end):
+    def _neg_tail(self, cur, neg, tail, i0, w, seg_end, st=True):
         """`!(alts)` followed only by literal text up to the end of the segment: s[j:e] matches no alternative."""
         s = self.s
         if seg_end is None:
@@ -247,8 +252,8 @@ class Spec:
         tl = len(tail)
         out = {}
         for j, cj in cur.items():
-            inalt = self.alts(neg[1], j, i0, w)
-            span = self.run(j, i0, w)        # the excluded part is a run of permitted characters (dot rule, no '/')
+            inalt = self.alts(neg[1], j, i0, w, st)
+            span = self.run(j, i0, w, st)    # the excluded part is a run of permitted characters (dot rule, no '/')
             for e, ce in span.items():
                 end = e + tl
                 if end > s.N:
@@ -260,7 +265,7 @@ class Spec:
                 pos = e
                 ok = True
                 for t in tail:
-                    mm = self.m(t, pos, i0, w)
+                    mm = self.m(t, pos, i0, w, False)
                     if pos + 1 not in mm:
                         ok = False
                         break
@@ -312,13 +317,13 @@ class Spec:
         text = ''.join(n[1] for n in nodes) if lits_only else None
         out = {}
         for j, c in base.items():
-            if j == i0:
+            if j == i0 and not self.empty_segments:
                 continue                       # a path segment is never empty
             dd = self.dotdir(i0, j)
             if dd is FALSE:
                 f = c
             else:
-                if self.nodotdir:
+                if self.nodotdir and not self.static_guard:
                     allow = TRUE if text in ('.', '..') else FALSE
                 else:
                     allow = written.get(j, FALSE)
@@ -419,6 +424,8 @@ class Spec:
                     for j, c in self.free_segment(i).items():
                         for j2, c2 in self.slashes(j, 1).items():
                             out = OR(out, AND(AND(c, c2), match(u, j2)))
+                        if self.empty_segments:
+                            out = OR(out, AND(c, match(u + 1, j)))
             memo[key] = out
             return out
 
@@ -435,7 +442,12 @@ class Spec:
             body = match(0, 0)
             if s.N > 0:
                 rel = z3.Or(s.len_eq(0), z3.Not(self.is_slash(0)))
-                if allow_abs_globstar and units[0][0] == 'gs':
+                if self.empty_segments:
+                    body2 = FALSE
+                    for j, c in self.slashes(0, 1).items():
+                        body2 = OR(body2, AND(c, match(0, j)))
+                    body = OR(body, body2)
+                elif allow_abs_globstar and units[0][0] == 'gs':
                     body2 = FALSE
                     for j, c in self.slashes(0, 1).items():
                         body2 = OR(body2, AND(c, match(0, j)))
